@@ -708,6 +708,9 @@ func (u *Universe) FillDirectives(root any) {
 // Omitted marks an input position that gqlgen made observable as "not provided".
 type Omitted struct{}
 
+// SetNull marks an Omittable that is set, to a nil value (explicit null).
+type SetNull struct{}
+
 // ToTree converts an argument value to a JSON-like tree: nil, bool, int64/uint64/float64, string,
 // []any, map[string]any (input objects by GraphQL field name via the json tag), Omitted{}.
 func ToTree(v reflect.Value) any {
@@ -721,7 +724,11 @@ func ToTree(v reflect.Value) any {
 		if !isSet {
 			return Omitted{}
 		}
-		return ToTree(v.MethodByName("Value").Call(nil)[0])
+		inner := ToTree(v.MethodByName("Value").Call(nil)[0])
+		if inner == nil {
+			return SetNull{}
+		}
+		return inner
 	}
 	switch t.Kind() {
 	case reflect.Ptr, reflect.Interface:
